@@ -34,19 +34,13 @@ theorem inv_pushBack (t : Table) (k : String) (v : Var) (h : t.Inv) : (t.pushBac
 every row of the table has exactly `ColumnCount` cells, never-punched cells being empty. -/
 theorem inv_endRow (t : Table) (h : t.Inv) : t.endRow.Inv ∧ t.endRow.Full := by
   unfold Table.endRow
-  split
-  · have key : ∀ c ∈ t.cols.map (padTo (t.rowCount + 1)), c.length = t.rowCount + 1 := by
-      intro c hc
-      simp at hc
-      obtain ⟨x, hx, rfl⟩ := hc
-      rw [padTo_length]
-      rcases h.cells x hx with e | e <;> omega
-    exact ⟨⟨by simp [h.ncols], fun c hc => Or.inl (key c hc)⟩, fun c hc => key c hc⟩
-  · rename_i hz
-    have hz' : t.headings.length = 0 := by simpa [Table.colCount] using hz
-    have : t.cols = [] := by
-      have := h.ncols; rw [hz'] at this; exact List.eq_nil_of_length_eq_zero this
-    exact ⟨h, by intro c hc; simp [this] at hc⟩
+  have key : ∀ c ∈ t.cols.map (padTo (t.rowCount + 1)), c.length = t.rowCount + 1 := by
+    intro c hc
+    simp at hc
+    obtain ⟨x, hx, rfl⟩ := hc
+    rw [padTo_length]
+    rcases h.cells x hx with e | e <;> omega
+  exact ⟨⟨by simp [h.ncols], fun c hc => Or.inl (key c hc)⟩, fun c hc => key c hc⟩
 
 theorem inv_step (t : Table) (op : Op) (h : t.Inv) : (t.step op).Inv := by
   cases op with
@@ -167,13 +161,11 @@ theorem endRow_preserves_cells (t : Table) (j r : Nat) (h : t.Inv)
     (hr : r < ((t.cols.getD j []).length)) :
     (t.endRow.cols.getD j []).getD r .empty = (t.cols.getD j []).getD r .empty := by
   unfold Table.endRow
-  split
-  · by_cases hj : j < t.cols.length
-    · simp [List.getD_eq_getElem?_getD, List.getElem?_map, List.getElem?_eq_getElem hj, padTo] at hr ⊢
-      rw [List.getElem?_append_left hr]
-    · have : t.cols.length ≤ j := by omega
-      simp [List.getD_eq_getElem?_getD, List.getElem?_eq_none, this] at hr
-  · rfl
+  by_cases hj : j < t.cols.length
+  · simp [List.getD_eq_getElem?_getD, List.getElem?_map, List.getElem?_eq_getElem hj, padTo] at hr ⊢
+    rw [List.getElem?_append_left hr]
+  · have : t.cols.length ≤ j := by omega
+    simp [List.getD_eq_getElem?_getD, List.getElem?_eq_none, this] at hr
 
 /-- Non-vacuity: a concrete history with a late column and an overwritten cell. -/
 example :
@@ -191,6 +183,18 @@ example :
     modifyNth, putCell, padTo] at hc ⊢
   rcases hc with rfl | rfl <;> simp
 
+
+/-- rows ended before the block has any column are kept: the row count advances, `GetRowCount` answers 0 until a
+column exists, and the late column shows the earlier rows as empty cells (regression of b4accc5a) -/
+theorem endRow_without_columns (t : Table) (h : t.colCount = 0) :
+    t.endRow.rowCount = t.rowCount + 1 ∧ t.endRow.rowCountAPI = 0 ∧ t.endRow.colCount = 0 := by
+  simp [Table.endRow, Table.rowCountAPI, Table.colCount] at h ⊢
+  exact h
+
+example :
+    let t := Table.init.run [.endRow, .endRow, .push "a" (.long 1), .endRow]
+    t.rowCountAPI = 4 ∧ t.get 1 0 = (VR_OK, .empty) ∧ t.get 2 0 = (VR_OK, .empty) ∧ t.get 3 0 = (VR_OK, .long 1) := by
+  decide
 
 /-! ## language bindings -/
 
